@@ -714,7 +714,13 @@ func (env *SpecEnv) evalCall(x *ast.CallExpr) TV {
 	boolTV := func(f string) TV { return TV{IntV{b2i(f)}, basicT(types.Bool)} }
 	switch name {
 	case "__imp":
-		return boolTV(implies(env.evalBoolExpr(x.Args[0]), env.evalBoolExpr(x.Args[1])))
+		// a statically false antecedent (defined(name) of a variable that does not reach this point) makes the
+		// implication true without evaluating a consequent that may name that variable
+		ante := env.evalBoolExpr(x.Args[0])
+		if ante == "false" {
+			return boolTV("true")
+		}
+		return boolTV(implies(ante, env.evalBoolExpr(x.Args[1])))
 	case "defined":
 		// defined(name): a variable of that name is in scope (its definition reaches this point)
 		id, ok := x.Args[0].(*ast.Ident)
